@@ -9,7 +9,7 @@
    /repo).  That the real code follows this protocol is checked by replaying its line-level event traces, produced
    under a deterministic scheduler, against the model; the converter registry, the parser cache and the conversions
    themselves are explored on the implementation by bounded-preemption search (harness/c20.py). *)
-From UV Require Import Concur ConcurProofs.
+From UV Require Import Concur RegCache ConcurProofs.
 From Coq Require Import List Arith.
 Import ListNotations.
 
@@ -28,6 +28,13 @@ Theorem C20_no_deadlock : forall local n pend flds sched, refs_in flds pend ->
   (exists t p, nth_error (ths st) t = Some p /\ finished p = false) ->
   exists u, tstep true local st u <> None.
 Proof. exact locked_no_deadlock. Qed.
+
+(* lookups in the shared converter registry (the registrations do not change meanwhile): any threads, any requested
+   types, any schedule: each lookup returns what the scan of the registrations gives, whoever filled the cache *)
+Theorem C20_registry_lookups_agree : forall scan ca reqs sched, cache_ok scan ca ->
+  forall u p, nth_error (r_ths (rrun scan {| r_cache := ca; r_ths := map RTest reqs |} sched)) u = Some p ->
+    (forall t, p <> RKeyErr t) /\ (forall t c, p = RDone t c -> c = scan t).
+Proof. exact registry_lookups_safe. Qed.
 
 (* the code without the lock: two threads, two pending references, one preemption.  Thread 0 resolves the first
    reference; thread 1 takes its snapshot of the table; thread 0 finishes the table; thread 1 looks its first name up *)
